@@ -54,29 +54,38 @@ def c14neg (a : List String) (obs : String) : String × String :=
       if it.startsWith "cfg=" then (acc.1 ++ ['c'], parseCfg14 (it.drop 4).toString) else
       (acc.1 ++ [match (negotiate acc.2 {} (parseOptItem it)).1 with
         | .accept _ => '1' | .error _ => 'e' | _ => '0'], acc.2)) ([], cfg)).1)
-    let model := s!"{";".intercalate outs} acc={b2s st.accepted}:{paramsStr st.params} solo={solo}"
-    let obsSolo := ((obs.splitOn " solo=").getD 1 "").toList
+    let soloAns := (items.foldl (fun (acc : List String × Params) it =>
+      if it == "reset" then (acc.1 ++ ["-"], acc.2) else
+      if it.startsWith "cfg=" then (acc.1 ++ ["-"], parseCfg14 (it.drop 4).toString) else
+      (acc.1 ++ [match (negotiate acc.2 {} (parseOptItem it)).1 with
+        | .accept o => optStr o | _ => "-"], acc.2)) ([], cfg)).1
+    let model := s!"{";".intercalate outs} acc={b2s st.accepted}:{paramsStr st.params} solo={solo} soloans={";".intercalate soloAns}"
+    let obsSolo := ((((obs.splitOn " solo=").getD 1 "").splitOn " ").headD "").toList
+    let obsSoloAns := ((obs.splitOn " soloans=").getD 1 "").splitOn ";"
     -- oracle
     let obsItems := ((obs.splitOn " acc=").headD "").splitOn ";"
     let obsFlag := ((obs.splitOn " acc=").getD 1 "").startsWith "1"
     -- metamorphic: while nothing is accepted yet, each offer must be treated as it is when offered
     -- alone to a fresh negotiator (so the accepted one is the FIRST acceptable one)
-    let rec first (obsI : List String) (solo : List Char) (accepted : Bool) : Option String :=
+    let rec first (obsI : List String) (solo : List Char) (sans : List String) (accepted : Bool) : Option String :=
       match obsI, solo with
       | o :: os', c :: cs =>
-        if c == 'r' then first os' cs false
-        else if c == 'c' then first os' cs accepted
-        else if accepted then first os' cs true
+        if c == 'r' then first os' cs (sans.drop 1) false
+        else if c == 'c' then first os' cs (sans.drop 1) accepted
+        else if accepted then first os' cs (sans.drop 1) true
         else if c == '1' && !o.startsWith "acc:" then some "bad:acceptable-offer-not-accepted-after-earlier-offers"
+        -- (also after Reset and a change of Parameters: the answer is the one a NEW negotiator with the parameters it
+        --  has now gives to this offer)
+        else if c == '1' && o != "acc:" ++ sans.headD "?" then some "bad:answer-differs-from-a-new-negotiator's"
         else if c == '0' && o != "none" then some "bad:offer-treated-differently-than-alone"
         else if c == 'e' && !o.startsWith "err:" then some "bad:offer-treated-differently-than-alone"
-        else first os' cs (o.startsWith "acc:")
+        else first os' cs (sans.drop 1) (o.startsWith "acc:")
       | _, _ => none
     let rec judge (its obsI : List String) (accepted : Bool) : String :=
       match its, obsI with
       | [], _ | _, [] =>
         if obsFlag != accepted then "bad:Accepted()-flag"
-        else (first obsItems obsSolo false).getD "ok"
+        else (first obsItems obsSolo obsSoloAns false).getD "ok"
       | it :: its', o :: os' =>
         if it == "reset" then judge its' os' false else
         if it.startsWith "cfg=" then judge its' os' accepted else
